@@ -90,12 +90,20 @@ func (p *poller) addConn(c *Conn) error {
 	} else {
 		p.g.onUDPListen(c)
 	}
-	p.g.connsUnix[fd] = c
 	// A Write issued before this point (e.g. inside the open callback) could
 	// not arm the write event because the fd was not registered yet: register
 	// with the write event if there is a backlog already.
 	var err error
 	c.mux.Lock()
+	if c.closed {
+		// Closed inside the open callback (and its close notification has
+		// been delivered): the descriptor is gone and its number may belong
+		// to another connection by now, so neither the table slot nor epoll
+		// must be touched for it.
+		c.mux.Unlock()
+		return net.ErrClosed
+	}
+	p.g.connsUnix[fd] = c
 	if len(c.writeList) > 0 {
 		c.isWAdded = true
 		err = p.addReadWrite(fd)
